@@ -16,6 +16,7 @@ Oracle
   stalled-with-credit    at a quiescent point a stream has bytes the application already submitted, positive
                          stream and connection windows at the client, and yet nothing is being sent
   sibling-blocked        a stream with credit did not complete because another is stalled or reset
+  send-not-released      an application still waits in send() although all it has submitted reached the client
   never-yields/livelock  the server spins instead of going quiescent (watchdog / step cap)
 """
 from __future__ import annotations
@@ -86,6 +87,9 @@ def credit_script(name: str, sids: List[int]) -> list:
         return [("cmd", 0, "winup", 0, big)]
     if name == "rst_first":
         return [("cmd", 0, "rst", sids[0], 8)] + [("cmd", 0, "winup", s, big) for s in sids[1:]] + [("cmd", 0, "winup", 0, big)]
+    if name == "rst_prio":  # the client cancels a stream and re-prioritises it afterwards (RFC 9113 5.3.4 allows that)
+        return [("cmd", 0, "rst", sids[0], 8), ("cmd", 0, "prio", sids[0], 0, 50, False)] + \
+               [("cmd", 0, "winup", s, big) for s in sids[1:]] + [("cmd", 0, "winup", 0, big)]
     if name == "prio":
         out = []
         if len(sids) > 1:
@@ -112,6 +116,10 @@ def scenarios(tier: str) -> List[Any]:
         out.append((engine, 0, 16384, ("empty",), "none"))
         out.append((engine, 0, 16384, ("empty", "three"), "none"))
         out.append((engine, 65535, 16384, ("exact",), "none"))
+    for engine in ("asyncio", "trio"):
+        for win in (0, 65535):
+            for ss in (("three",), ("three", "one"), ("big", "three")):
+                out.append((engine, win, 16384, ss, "rst_prio"))
     for engine in ("asyncio", "trio"):
         for ss in (("huge",), ("huge", "three")):
             for cr in ("conn_only", "none"):
@@ -275,6 +283,13 @@ def oracle(w: Any, params: Any) -> List[dict]:
         if done and st["body"] == want and st["ended"] != 1 and st["reset"] is None and rec.closed_at is None \
                 and not _client_reset(w, sid) and st["headers"] is not None:
             out.append(V("end-stream", f"{tag}:{name}:missing", f"stream {sid}: all {len(want)} bytes delivered, app returned, no END_STREAM"))
+        # a send() still waiting although every byte handed over so far (its own included) has reached the client:
+        # nothing is buffered any more, so nothing is left to wait for
+        if inst.sends and inst.sends[-1][3] == "pending" and inst.sends[-1][2]["type"] == "http.response.body" \
+                and inst.sends[-1][2].get("more_body", False) and st["reset"] is None and not _client_reset(w, sid) \
+                and rec.closed_at is None and len(st["body"]) == _submitted(inst) and not cl.pending:
+            out.append(V("send-not-released", f"{tag}:{name}", f"stream {sid}: all {_submitted(inst)} submitted bytes delivered, "
+                                                               f"yet the application is still waiting in send()"))
         for fr in cl.frames_data:
             if fr[1] == sid and fr[2] > mfs:
                 out.append(V("client-rejects-frame", f"{tag}:frame-size", f"DATA frame of {fr[2]} > {mfs}"))
